@@ -222,7 +222,11 @@ def elemStep (atmost : List SumAgg.APred) (gs : Groups) (a : Addr) : M (List BAg
       | [] => pure []   -- `if elem.terms and len(elem.terms) > 0:` has no else branch
       | w :: restTerms =>
         let passes ← liftE (SumAgg.elementPasses elem (agg.elems.map fun e => (e, false)))
-        if !passes then pure [elem]
+        -- fix b5d2d20 (known_findings.json `fixed:`): a weight that is also used outside of the aggregate is left alone
+        let glob := match w, s.cur[a.stm]?, readBLit s.cur a.stm a.blit with
+          | .var v, some stm, some blit => (SumAgg.outsideVars stm blit).contains v
+          | _, _, _ => false
+        if !passes || glob then pure [elem]
         else
           match ← liftE (SumAgg.getTrigger atmost w (elem.2.map BLit.lit) 0) with
           | none => pure [elem]
